@@ -430,6 +430,8 @@ func init() {
 		e.objFields("fileDecorator", "decorateScope", []string{"Outer", "Objects"})
 		e.objFields("FileRestorer", "restoreScope", []string{"Outer", "Objects"})
 		e.RNilFirst()
+		// an error that is dropped inside the object converters leaves an object without its Decl
+		e.RErr(e.pkgs(load.PkgDecorator), 40)
 		e.extrasGate("restoreObject")
 		e.extrasGate("restoreScope")
 		e.extrasDeferredOwnFile()
